@@ -32,9 +32,10 @@ def _worker(args):
         moved = [e[1] for e in case["edits"] if e[0] == "move_pkey"]
         removal_at_move = bool(moved) and len(res["snaps"]) > 2 and any(
             q["remote"] is not None and q["remote"][0] == "removed" and q["remote"][1] in moved for q in res["snaps"][-2]["queue"])
-        return evocase.analyse(case, res), evocase.step_gallina(case, res), (evocase.lifecycle_has_readd(res), pending_unmapped, failed_purge, removal_at_move), None
+        return (evocase.analyse(case, res), evocase.step_gallina(case, res),
+                (evocase.lifecycle_has_readd(res), pending_unmapped, failed_purge, removal_at_move), None, evocase.remap_gallina(case, res))
     except Exception:
-        return None, None, None, traceback.format_exc()
+        return None, None, None, traceback.format_exc(), []
 
 
 def run(ctx):
@@ -50,7 +51,25 @@ def run(ctx):
                                 typ="ecase", checker="check_ecases", shard=40)
     violations, corr = [], []
     hist = {"edits": {}, "cases_with_failures": 0, "cases_without_edit": 0, "three_phase_cases": 0}
-    for i, (c, (viol, g, (readd, pending_unmapped, failed_purge, removal_at_move), _)) in enumerate(zip(cases, res)):
+    # the datamodel update of the restarted client against the remap model (where it applies:
+    # queue empty, trashbin off, every local type kept)
+    rgal, rmeta = [], []
+    for i, r in enumerate(res):
+        for j, g in enumerate(r[4]):
+            rgal.append(g)
+            rmeta.append((i, j))
+    rfail = srvprops.coq_eval(ctx, "c17r", rgal, f="corr_rcase", g="c17_rcase", require="Corr.RunEvo",
+                              typ="rcase", checker="check_rcases", shard=40) if rgal else {}
+    hist["client_datamodel_updates_checked_against_the_remap_model"] = len(rgal)
+    for x, (c_ok, o_ok) in sorted(rfail.items()):
+        i, j = rmeta[x]
+        rep = {"replay_kind": "evolution_case", "case": common.enc(cases[i])}
+        if not o_ok:
+            violations.append({"sig": None, "what": f"after the client datamodel update (restart #{j + 1}) the local data are not the projection of the remote "
+                                                    f"cache under the new mapping, or an object got two calls / a failing call (case {i}, edits {cases[i]['edits']})", **rep})
+        elif not c_ok:
+            corr.append({"what": f"corr_client_remap: remap model != __processDatamodelUpdate on case {i} (edits {cases[i]['edits']})", **rep})
+    for i, (c, (viol, g, (readd, pending_unmapped, failed_purge, removal_at_move), _, _rg)) in enumerate(zip(cases, res)):
         for e in c["edits"]:
             hist["edits"][e[0]] = hist["edits"].get(e[0], 0) + 1
         hist["cases_with_failures"] += c["p_fail"] > 0
@@ -89,7 +108,7 @@ def run(ctx):
 
 def replay(obj):
     case = common.dec(obj["case"])
-    viol, g, flags, e = _worker((case, common.workdir("replay") + "/e"))
+    viol, g, flags, e, _rg = _worker((case, common.workdir("replay") + "/e"))
     if e:
         print(e)
         return 2
